@@ -12,6 +12,7 @@ import (
 	"time"
 
 	sdk "github.com/cosmos/cosmos-sdk/types"
+	"github.com/cosmos/cosmos-sdk/types/bech32"
 	"github.com/gogo/protobuf/proto"
 	"pgregory.net/rapid"
 
@@ -180,6 +181,32 @@ func TestC11(t *testing.T) {
 		}
 		if c.App.MsgServiceRouter().Handler(m) == nil {
 			failf(rt, rec, "C11/unroutable", msgSummary(m), "%s has no handler", u)
+		}
+		// a creator that is well-formed bech32 with the chain's prefix but no account (payload of another length than
+		// 20 or 32 bytes): wherever stateless validation lets it through, the message must still demand one signature
+		// (or be refused by panicking in GetSigners, which the ante handler turns into a failed transaction); a message
+		// that demands no signature at all can ride along in anybody's transaction
+		if rapid.IntRange(0, 2).Draw(rt, "oddCreator") == 0 {
+			payload := make([]byte, rapid.SampledFrom([]int{1, 19, 21, 31, 33, 64, 300}).Draw(rt, "creatorPayloadLength"))
+			for i := range payload {
+				payload[i] = byte(i*7 + 1)
+			}
+			odd, err := bech32.ConvertAndEncode("jkl", payload)
+			must(err)
+			m2 := newMsgOf(c, u)
+			fillMsg(rt, m2, env, nil)
+			reflect.ValueOf(m2).Elem().FieldByName("Creator").SetString(odd)
+			if m2.ValidateBasic() == nil {
+				rec.Count("odd-length-creator-passes-stateless-validation")
+				n := -1
+				func() {
+					defer func() { _ = recover() }()
+					n = len(m2.GetSigners())
+				}()
+				if n != -1 && n != 1 {
+					failf(rt, rec, "C11/signers/creator-that-is-no-account", msgSummary(m2), "%s with a %d-byte creator passes ValidateBasic and GetSigners() returns %d signers: the message needs no signature of its own", u, len(payload), n)
+				}
+			}
 		}
 		// encode / decode round trip through the app's TxConfig
 		b := txCfg.NewTxBuilder()
